@@ -132,6 +132,16 @@ ChildrenOK(e) ==
      /\ (e.dflt => e.target = r + 1)
      /\ Drift(\A i \in 1..Len(e.list) : IsDescId(e.list[i], e.id), "children: not the prefix tree")
 
+\* a large expansion, summarised by the harness (counts of offending entries instead of the entries themselves)
+ChildrenBigOK(e) ==
+  /\ IsQuads(e.id) /\ Canonical(e.id) /\ e.ok
+  /\ LET r == ResOfCanon(e.id) IN
+     /\ r >= 2 /\ e.target > r
+     /\ e.len_is_pow4 /\ e.len_exp4 = e.target - r            \* exactly 4^(target - res) children
+     /\ e.wrong_res = 0 /\ e.wrong_parent = 0 /\ e.dups = 0
+     /\ IsCanonRes(e.min, e.target) /\ IsCanonRes(e.max, e.target)
+     /\ IsDescId(e.min, e.id) /\ IsDescId(e.max, e.id)         \* the extremes lie in the subtree (C20: one ID interval)
+
 \* parent(parent(c, a), b) = parent(c, b)  for  res(c) >= a >= b >= -1
 ParentComposeOK(e) ==
   /\ IsQuads(e.c) /\ Canonical(e.c)
@@ -140,6 +150,16 @@ ParentComposeOK(e) ==
   /\ IsCanonRes(e.pa, e.a) /\ IsCanonRes(e.pb, e.b)
   /\ (e.a = ResOfCanon(e.c) => e.pa = e.c)
   /\ Drift(e.pa = AncId(e.c, e.a), "parent: not the prefix tree")
+
+\* the whole ancestor chain of a cell: e.direct[a + 2] = parent(c, a) for a = -1..res, e.step[a + 1] = parent(direct(a), a - 1)
+AncestorsOK(e) ==
+  /\ IsQuads(e.c) /\ Canonical(e.c) /\ e.ok
+  /\ LET r == ResOfCanon(e.c) IN
+     /\ Len(e.direct) = r + 2 /\ Len(e.step) = r + 1
+     /\ e.direct[r + 2] = e.c /\ e.direct[1] = Zero32
+     /\ \A a \in 0..r : IsCanonRes(e.direct[a + 2], a)
+     /\ \A a \in 0..r : e.step[a + 1] = e.direct[a + 1]        \* parent(parent(c, a), a - 1) = parent(c, a - 1)
+     /\ Drift(\A a \in 0..r : e.direct[a + 2] = AncId(e.c, a), "ancestors: not the prefix tree")
 
 \* children(children(c, m), r2) = children(c, r2)
 ChildrenComposeOK(e) ==
@@ -222,6 +242,12 @@ Compact10OK(e) ==
           /\ Maximal(O)                                           \* no complete sibling group left
           /\ O = CanonSet(S)                                      \* the canonical description of the region
           /\ e.ok2 /\ SeqSet(e.again) = SeqSet(e.out) /\ Len(e.again) = Len(e.out)   \* idempotent
+
+\* a very large input (summarised by counts): exactly the groups left complete are merged, nothing else changes
+BigCompactOK(e) ==
+  /\ e.ok /\ IsQuads(e.root) /\ Canonical(e.root)
+  /\ e.out_len = e.n_in - 3 * e.groups_complete        \* four children -> one parent, once per complete group
+  /\ e.parents_present = e.groups_complete /\ e.leftovers = 0 /\ e.dups = 0
 
 \* two non-overlapping inputs covering the same region compact to the same set
 CompactPairOK(e) ==
